@@ -428,11 +428,15 @@ impl File {
             };
             let width = self.widths[char_dimens.width_index.get() as usize].0;
             // TODO: adjust based on the design units
-            let width = width + (c as i32 + 4) * 0o20_000_000;
+            // The calculation uses 64 bits and the Euclidean remainder because the width
+            // can be any 32-bit value: adding (c+4)*2^22 to a big width overflows 32 bits,
+            // and a very negative width makes the sum (and the usual remainder) negative.
+            let width = (width as i64) + (c as i64 + 4) * 0o20_000_000;
             let add = |b: u8, m: u8| -> u8 {
-                (((b as i32) + (b as i32) + width) % (m as i32))
+                ((b as i64) + (b as i64) + width)
+                    .rem_euclid(m as i64)
                     .try_into()
-                    .expect("(i32 % u8) is always a u8")
+                    .expect("(i64).rem_euclid(u8) is always a u8")
             };
             b = [
                 add(b[0], 255),
